@@ -286,6 +286,9 @@ def gen_kernprof_options():
     out.append('/-- argparse\'s `allow_abbrev` of every parser kernprof creates (`True` is argparse\'s default) -/')
     out.append('def kernprofAllowAbbrev : Bool := %s' % ('true' if kernprof_allow_abbrev() else 'false'))
     out.append('')
+    out.append('/-- some parser kernprof creates reads arguments from files (`fromfile_prefix_chars`): program arguments starting with that character would be expanded -/')
+    out.append('def kernprofFromfilePrefix : Bool := %s' % ('true' if kernprof_fromfile_prefix() else 'false'))
+    out.append('')
     out.append('end LPVerif.Generated')
     return '\n'.join(out) + '\n'
 
@@ -306,6 +309,21 @@ def kernprof_allow_abbrev():
         v = kw.get('allow_abbrev')
         if not (isinstance(v, ast.Constant) and v.value is False):
             return True
+    return False
+
+
+def kernprof_fromfile_prefix():
+    """True when some construction of an ArgumentParser in kernprof.py (directly or through functools.partial) passes a non-None fromfile_prefix_chars"""
+    tree = ast.parse(src_of('kernprof.py'))
+    for node in ast.walk(tree):
+        if isinstance(node, ast.Call):
+            f = ast.unparse(node.func)
+            if f in ('ArgumentParser', 'argparse.ArgumentParser') or (f in ('functools.partial', 'partial') and node.args and ast.unparse(node.args[0]) in ('ArgumentParser', 'argparse.ArgumentParser')):
+                for k in node.keywords:
+                    if k.arg == 'fromfile_prefix_chars' and not (isinstance(k.value, ast.Constant) and k.value.value is None):
+                        return True
+                    if k.arg is None:
+                        return True          # **kwargs: cannot tell
     return False
 
 
